@@ -1,10 +1,13 @@
 #!/bin/bash
 # usage: tools/seed_confirm.sh <dir-id> — confirm a seeded change in its scratch worktree /tmp/seed/<id>
+# (toggles the change with `git apply -R` / `git apply`: `git stash` is shared by all worktrees of a
+# repository and interleaves when several seeders work at once)
 id=$1; wt=/tmp/seed/$id; out=/tmp/seed/$id-out
 cd $wt || exit 2
+git diff > /tmp/seed/$id.confirm.patch
 echo "== $id: tests with change"; cargo test --offline --lib 2>&1 | grep -E "^test result" 
 echo "== demo with change"; (cd $out/demo && cargo run --offline --quiet >/tmp/seed/$id.with.log 2>&1; echo "exit=$?")
-git stash -q
+git apply -R /tmp/seed/$id.confirm.patch
 echo "== demo without change"; (cd $out/demo && cargo run --offline --quiet >/tmp/seed/$id.without.log 2>&1; echo "exit=$?")
-git stash pop -q
+git apply /tmp/seed/$id.confirm.patch
 git diff --stat | tail -1
